@@ -770,13 +770,17 @@ func runC12(c *Ctx) error {
 	for n := 1; n <= 5; n++ {
 		perms := permutations(n)
 		for _, shape := range treeShapes(n, 4) {
-			for _, p := range perms {
+			ps := perms
+			if n == 5 && !c.Thorough() {
+				ps = upToSymmetry(shape, perms)
+			}
+			for _, p := range ps {
 				add(fmt.Sprintf("exhaustive_%d", n), shape, zeros(n), p)
 			}
 		}
 	}
 	c.Stats.Exhaustive = true
-	scope := "all delivery orders (each block once) of all rooted tree shapes with 1..5 blocks and at most 4 children per block, all blocks valid"
+	scope := "all delivery orders (each block once) of all rooted tree shapes with 1..5 blocks and at most 4 children per block, all blocks valid (quick tier: the 5-block shapes up to tree automorphism)"
 	if c.Thorough() {
 		perms6, perms7 := permutations(6), permutations(7)
 		for _, shape := range treeShapes(6, 4) {
@@ -802,7 +806,7 @@ func runC12(c *Ctx) error {
 	c.Stats.Extra["exhaustive_scope"] = scope
 
 	// random orders of larger trees, some with invalid blocks
-	nbig := c.N(60, 400)
+	nbig := c.N(50, 400)
 	for k := 0; k < nbig; k++ {
 		n := 30 + c.Rng.Intn(31)
 		if c.Rng.Chance(25) {
@@ -821,7 +825,7 @@ func runC12(c *Ctx) error {
 	}
 
 	// malformed stream: small trees with invalid blocks, repeated and missing deliveries
-	nmal := c.N(300, 2500)
+	nmal := c.N(250, 2500)
 	for k := 0; k < nmal; k++ {
 		n := 2 + c.Rng.Intn(7)
 		parents := randomTree(c.Rng, n, 4, c.Rng.Intn(2))
